@@ -527,6 +527,7 @@ class Tt4Card(SimBase):
             self.log.append(("apdu", k))
             if k in self.wtx_at:
                 self.pending = rsp
+                self.wtx_left = getattr(self, "wtx_count", 1) - 1
                 return self._send([0xF2, 0x01])     # S(WTX) request, WTXM 1
             return self._start_response(rsp)
         if (pcb & 0xF6) == 0xA2 or (pcb & 0xF6) == 0xB2:    # R-block
@@ -549,6 +550,10 @@ class Tt4Card(SimBase):
                 return self._next_piece()
             raise nfc.clf.TimeoutError("unexpected R(ACK)")
         if pcb == 0xF2 and len(cmd) == 2 and self.pending is not None:
+            if getattr(self, "wtx_left", 0) > 0:
+                # the card needs still more time: another S(WTX) request
+                self.wtx_left -= 1
+                return self._send([0xF2, 0x01])
             rsp, self.pending = self.pending, None
             if rsp == "next-piece":
                 return self._next_piece()
